@@ -260,6 +260,8 @@ AbsPatch0(kind, id) ==
        [] kind = "resume" -> [units |-> <<u(0, 7, "op", ".Lr"), u(7, 2, "ijmp", "")>>,
                               labels |-> <<[nm |-> ".Lr", base |-> ".Lr", o |-> 9]>>,
                               sx |-> <<[o |-> 3, d |-> <<"C", ".Lr", 0>>]>>, sxs |-> <<>>]
+       [] kind = "datasec" -> [units |-> <<u(0, 7, "op", ".Ld")>>, labels |-> <<>>,
+                               sx |-> <<[o |-> 3, d |-> <<"C", ".Ld", 0>>]>>, sxs |-> <<>>]
        [] kind = "bytes"  -> [units |-> <<[o |-> 0, n |-> 1, k |-> "data", tg |-> "", tgb |-> "", by |-> <<<<"patch", id, 1>>>>],
                                           [o |-> 1, n |-> 1, k |-> "data", tg |-> "", tgb |-> "", by |-> <<<<"patch", id, 2>>>>]>>,
                               labels |-> <<>>, sx |-> <<>>, sxs |-> <<>>]
@@ -273,7 +275,15 @@ PatchCfiOf(kind) ==
        [] OTHER -> <<>>
 AbsPatch(kind, id) ==
   LET p == AbsPatch0(IF kind \in {"cfi", "cfistate", "align"} THEN "plain2" ELSE kind, id)
+      dunit(o, tg) == [o |-> o, n |-> 1, k |-> "data", tg |-> tg, tgb |-> tg, by |-> <<<<"chunk", id, o>>>>]
   IN  [units |-> p.units, labels |-> p.labels, sx |-> p.sx, sxs |-> p.sxs,
+       other |-> IF kind = "datasec"
+                 THEN <<[name |-> ".data", n |-> 9,
+                         units |-> [x \in 1..9 |-> dunit(x - 1, IF x = 2 THEN "b1" ELSE "")],
+                         labels |-> <<[nm |-> ".Ld", base |-> ".Ld", o |-> 0]>>,
+                         sx |-> <<[o |-> 1, d |-> <<"C", "b1", 0>>]>>, sxs |-> <<[o |-> 1, v |-> 8]>>]>>
+                 ELSE <<>>,
+       nsec |-> IF kind = "datasec" THEN 2 ELSE 1,
        cfi |-> PatchCfiOf(kind),
        n |-> Sum([j \in 1..Len(p.units) |-> p.units[j].n])]
 
@@ -294,7 +304,8 @@ Candidates(sh) ==
             code == b.kind = "code"
         IN
           {[op |-> "ins", blk |-> i, off |-> o, len |-> 0, proxy |-> FALSE, pk |-> k] :
-              o \in B, k \in (IF code THEN PatchKinds \ {"bytes"} ELSE PatchKinds \cap {"bytes"})}
+              o \in B, k \in (IF code THEN PatchKinds \ ({"bytes"} \cup (IF Len(sh.sections) >= 2 THEN {} ELSE {"datasec"}))
+                                ELSE PatchKinds \cap {"bytes"})}
           \cup
           {[op |-> "del", blk |-> i, off |-> o[1], len |-> o[2] - o[1], proxy |-> FALSE, pk |-> ""] :
               o \in {x \in B \X B : x[1] < x[2]}}
@@ -322,6 +333,8 @@ Compatible(rs, r) ==
        IN  /\ IF Less(l, r) THEN TRUE
               ELSE (l.blk = r.blk /\ l.off = r.off /\ l.op = "ins" /\ r.op = "ins")
            /\ (l.blk = r.blk => l.off + l.len <= r.off)
+           \* at most one patch of a batch adds a chunk to another section
+           /\ ~(r.pk = "datasec" /\ \E q \in DOMAIN rs : rs[q].pk = "datasec")
            \* an insertion anchored in a block that the batch deletes wholesale has
            \* no surviving anchor (out of the properties' quantifier, DESIGN F9)
            /\ ~(r.op = "ins" /\ \E q \in DOMAIN rs : rs[q].blk = r.blk /\ rs[q].op \in {"del", "rep"} /\ rs[q].off = 0
